@@ -4,6 +4,7 @@ import Mathlib.Data.List.Basic
 import Mathlib.Data.List.TakeWhile
 import Mathlib.Tactic.Ring
 import Mathlib.Tactic.Linarith
+import Mathlib.Tactic.NormNum
 import Mathlib.Algebra.Order.Field.Rat
 
 /-! Helper lemmas for C02 (`PewModel/Agilent.lean`). -/
@@ -252,5 +253,275 @@ theorem batchCsv_eq (rows : List CsvRow) : batchCsv rows = keepLast (csvNames ro
   unfold batchCsv
   rw [foldl_csvStep, foldl_appendLast _ _ List.nodup_nil]
   simp
+
+theorem csvNames_eq_xmlNames (log : List LogEntry) (rows : List CsvRow)
+    (hsame : List.Forall₂ (fun e r => e.file = some r.file ∧ r.result = e.result) log rows)
+    (hres : ∀ e ∈ log, e.result.take 4 = pass → e.result = pass)
+    (hlen : ∀ r ∈ rows, r.file.length ≤ 264) :
+    csvNames rows = xmlNames log := by
+  induction hsame with
+  | nil => rfl
+  | @cons e r es rs h _ ih =>
+    have ih' := ih (fun e he => hres e (List.mem_cons_of_mem _ he)) (fun r hr => hlen r (List.mem_cons_of_mem _ hr))
+    have hl : r.file.take 264 = r.file := List.take_of_length_le (hlen r (by simp))
+    unfold csvNames xmlNames at *
+    rw [List.filterMap_cons, List.filterMap_cons, ih', h.1, h.2, hl]
+    by_cases hp : e.result = pass
+    · have h4 : List.take 4 pass = pass := rfl
+      simp [hp, h4]
+    · have : ¬ e.result.take 4 = pass := fun h4 => hp (hres e (by simp) h4)
+      simp [hp, this]
+
+/-! ## method file vs log -/
+
+theorem sortByInt_of_perm_strict (samples planned : List Sample) (hperm : samples.Perm planned)
+    (hinc : planned.Pairwise (fun a b => sampleKey a < sampleKey b)) :
+    sortByInt sampleKey samples = planned :=
+  Pew.SortAgilent.sortKey_of_perm_strict sampleKey samples planned hperm hinc
+
+theorem xmlNames_of_allPass (log : List LogEntry) (h : ∀ e ∈ log, e.result = pass) :
+    xmlNames log = (log.map logName).filterMap id := by
+  induction log with
+  | nil => rfl
+  | cons e es ih =>
+    have := ih (fun e he => h e (List.mem_cons_of_mem _ he))
+    unfold xmlNames at *
+    rw [List.filterMap_cons, this, List.map_cons, List.filterMap_cons]
+    simp [h e (by simp), logName]
+
+theorem nodup_filterMap_id {β : Type} (l : List (Option β)) (h : l.Nodup) : (l.filterMap id).Nodup := by
+  induction l with
+  | nil => simp
+  | cons x xs ih =>
+    have hx := List.nodup_cons.mp h
+    cases x with
+    | none => simpa using ih hx.2
+    | some v =>
+      rw [List.filterMap_cons]
+      refine List.nodup_cons.mpr ⟨?_, ih hx.2⟩
+      intro hm
+      rw [List.mem_filterMap] at hm
+      obtain ⟨a, ha, e⟩ := hm
+      have : a = some v := e
+      subst this
+      exact hx.1 ha
+
+/-! ## directory scan -/
+
+theorem dataDirs_perm (l₁ l₂ : List Entry) (hp : l₁.Perm l₂) : (dataDirs l₁).Perm (dataDirs l₂) :=
+  (hp.filter _).map _
+
+theorem insertByNum_perm (x : Name) (l : List Name) : (insertByNum x l).Perm (x :: l) := by
+  induction l with
+  | nil => simp [insertByNum]
+  | cons y ys ih =>
+    unfold insertByNum
+    split
+    · exact List.Perm.refl _
+    · exact (List.Perm.cons y ih).trans (List.Perm.swap x y ys)
+
+theorem insertByNum_sorted (x : Name) (l : List Name)
+    (h : l.Pairwise (fun a b => digitsVal a ≤ digitsVal b)) :
+    (insertByNum x l).Pairwise (fun a b => digitsVal a ≤ digitsVal b) := by
+  induction l with
+  | nil => simp [insertByNum]
+  | cons y ys ih =>
+    have hy := List.pairwise_cons.mp h
+    unfold insertByNum
+    split
+    · rename_i hlt
+      refine List.pairwise_cons.mpr ⟨?_, h⟩
+      intro b hb
+      rcases List.mem_cons.mp hb with rfl | hb
+      · omega
+      · have := hy.1 b hb; omega
+    · rename_i hge
+      refine List.pairwise_cons.mpr ⟨?_, ih hy.2⟩
+      intro b hb
+      have hb' := (insertByNum_perm x ys).mem_iff.mp hb
+      rcases List.mem_cons.mp hb' with rfl | hb'
+      · omega
+      · exact hy.1 b hb'
+
+theorem foldl_insert_perm_sorted (l acc : List Name)
+    (h : acc.Pairwise (fun a b => digitsVal a ≤ digitsVal b)) :
+    (l.foldl (fun acc x => insertByNum x acc) acc).Perm (l ++ acc) ∧
+    (l.foldl (fun acc x => insertByNum x acc) acc).Pairwise (fun a b => digitsVal a ≤ digitsVal b) := by
+  induction l generalizing acc with
+  | nil => exact ⟨by simp, h⟩
+  | cons x xs ih =>
+    have := ih (insertByNum x acc) (insertByNum_sorted x acc h)
+    refine ⟨?_, this.2⟩
+    rw [List.foldl_cons]
+    refine this.1.trans ?_
+    refine ((insertByNum_perm x acc).append_left xs).trans ?_
+    simp
+
+/-! ## flattened profile index (from `design/spikes/FlattenIndex.lean`) -/
+
+theorem flatten_index {α : Type} (M : List (List α)) (k : Nat)
+    (hk : ∀ row ∈ M, row.length = k) (r j : Nat) (hr : r < M.length) (hj : j < k) :
+    M.flatten[r * k + j]? = (M[r]?).bind (fun row => row[j]?) := by
+  induction M generalizing r with
+  | nil => simp at hr
+  | cons row rest ih =>
+    have hrow : row.length = k := hk row (by simp)
+    cases r with
+    | zero =>
+      simp only [List.flatten_cons, Nat.zero_mul, Nat.zero_add, List.getElem?_cons_zero, Option.bind_some]
+      rw [List.getElem?_append_left (by omega)]
+    | succ r' =>
+      have hr' : r' < rest.length := by simpa using hr
+      have := ih (fun x hx => hk x (by simp [hx])) r' hr'
+      simp only [List.flatten_cons, List.getElem?_cons_succ]
+      rw [List.getElem?_append_right (by rw [hrow, Nat.succ_mul]; omega)]
+      have e : (r' + 1) * k + j - row.length = r' * k + j := by rw [hrow, Nat.succ_mul]; omega
+      rw [e, this]
+
+/-- the clip in `binary_read_datafile` is inactive -/
+theorem clip_inactive (R k r j : Nat) (hr : r < R) (hj : j < k) : r * k + j ≤ R * k - 1 := by
+  have h1 : r * k + j < (r + 1) * k := by rw [Nat.succ_mul]; omega
+  have h2 : (r + 1) * k ≤ R * k := Nat.mul_le_mul_right k hr
+  omega
+
+/-- `SpectrumOffset // ByteCount` recovers the record number when the header part of the offset is
+smaller than one record -/
+theorem offset_div (h r bc : Nat) (hh : h < bc) : (h + r * bc) / bc = r := by
+  have hbc : 0 < bc := by omega
+  rw [Nat.add_mul_div_right _ _ hbc, Nat.div_eq_of_lt hh, Nat.zero_add]
+
+/-- a well laid out data file: `R` scan records pointing at `R` profile records of `k` values,
+`SpectrumOffset = h + r·ByteCount` with `h < ByteCount` -/
+structure Layout {α : Type} (R k h bc : Nat) (scans : List ScanRec) (profile : List (List α)) : Prop where
+  nprofile : profile.length = R
+  nscans : scans.length = R
+  width : ∀ row ∈ profile, row.length = k
+  offs : ∀ r (hr : r < scans.length), scans[r].off = h + r * bc ∧ scans[r].bc = bc
+  small : h < bc
+
+theorem decodeMass_getElem {α : Type} {R k h bc : Nat} {scans : List ScanRec} {profile : List (List α)}
+    (L : Layout R k h bc scans profile) (r j : Nat) (hr : r < R) (hj : j < k) :
+    (decodeMass k scans profile (j + 1))[r]? = some ((profile[r]?).bind (fun row => row[j]?)) := by
+  unfold decodeMass
+  have hr' : r < scans.length := by rw [L.nscans]; exact hr
+  rw [List.getElem?_map, List.getElem?_eq_getElem hr']
+  simp only [Option.map_some]
+  have ho := L.offs r hr'
+  rw [ho.1, ho.2, offset_div h r bc L.small, L.nprofile]
+  have hc := clip_inactive R k r j hr hj
+  rw [Nat.add_sub_cancel, Nat.min_eq_left hc]
+  unfold flat
+  rw [flatten_index profile k L.width r j (by rw [L.nprofile]; exact hr) hj]
+
+theorem profile_getElem_some {α : Type} {R k h bc : Nat} {scans : List ScanRec} {profile : List (List α)}
+    (L : Layout R k h bc scans profile) (r j : Nat) (hr : r < R) (hj : j < k) :
+    ∃ v, (profile[r]?).bind (fun row => row[j]?) = some v := by
+  have hr' : r < profile.length := by rw [L.nprofile]; exact hr
+  have hw := L.width profile[r] (List.getElem_mem hr')
+  refine ⟨profile[r][j], ?_⟩
+  rw [List.getElem?_eq_getElem hr']
+  simp only [Option.bind_some]
+  rw [List.getElem?_eq_getElem]
+
+/-! ## scan time -/
+
+theorem sum_diffs (a : Rat) (l : List Rat) : (diffs (a :: l)).sum = (a :: l).getLastD 0 - a := by
+  induction l generalizing a with
+  | nil => simp [diffs]
+  | cons b rest ih =>
+    rw [diffs, List.sum_cons, ih b]
+    simp only [List.getLastD_cons]
+    ring
+
+theorem length_diffs (l : List Rat) : (diffs l).length = l.length - 1 := by
+  induction l with
+  | nil => simp [diffs]
+  | cons a rest ih =>
+    cases rest with
+    | nil => simp [diffs]
+    | cons b r2 =>
+      rw [diffs, List.length_cons, ih]
+      simp
+
+theorem sum_flatten_rat (ls : List (List Rat)) : ls.flatten.sum = (ls.map List.sum).sum := by
+  induction ls with
+  | nil => simp
+  | cons x xs ih => simp [ih]
+
+theorem length_flatten_const {β : Type} (ls : List (List β)) (n : Nat) (h : ∀ l ∈ ls, l.length = n) :
+    ls.flatten.length = ls.length * n := by
+  induction ls with
+  | nil => simp
+  | cons x xs ih =>
+    rw [List.flatten_cons, List.length_append, ih (fun l hl => h l (by simp [hl])), h x (by simp),
+      List.length_cons, Nat.succ_mul]
+    omega
+
+/-! ## CSV line filter -/
+
+theorem validLines_past (n : Nat) (data foot : List Name)
+    (hdata : ∀ l ∈ data, countCommas l = n)
+    (hfoot : ∀ l ∈ foot, countCommas l ≠ n ∧ startsWithTime l = false) :
+    validLines true n (data ++ foot) = data := by
+  induction data with
+  | nil =>
+    simp only [List.nil_append]
+    induction foot with
+    | nil => rfl
+    | cons f fs ih =>
+      have hf := hfoot f (by simp)
+      rw [validLines]
+      have h1 : (true && countCommas f == n) = false := by simp [hf.1]
+      rw [h1, hf.2]
+      simp only [Bool.false_eq_true, if_false]
+      exact ih (fun l hl => hfoot l (by simp [hl]))
+  | cons d ds ih =>
+    rw [List.cons_append, validLines]
+    have h1 : (true && countCommas d == n) = true := by simp [hdata d (by simp)]
+    rw [h1]
+    simp only [if_true]
+    rw [ih (fun l hl => hdata l (by simp [hl]))]
+
+theorem validLines_pre (pre rest : List Name) (hpre : ∀ l ∈ pre, startsWithTime l = false) :
+    validLines false 0 (pre ++ rest) = validLines false 0 rest := by
+  induction pre with
+  | nil => rfl
+  | cons p ps ih =>
+    rw [List.cons_append, validLines]
+    simp only [Bool.false_and, Bool.false_eq_true, if_false]
+    rw [hpre p (by simp)]
+    simp only [Bool.false_eq_true, if_false]
+    exact ih (fun l hl => hpre l (by simp [hl]))
+
+/-! ## mass table -/
+
+def updMass (msms : Bool) (m : MassInfo) (a : XAdd) : MassInfo :=
+  { m with mz := a.precursor, mz2 := if msms then some a.product else m.mz2 }
+
+theorem foldl_applyAdd (msms : Bool) (rows : List XAdd) (tbl : List MassInfo) :
+    rows.foldl (applyAdd msms) tbl = tbl.map (fun m =>
+      match rows.reverse.find? (fun a => a.index = m.id) with
+      | none => m
+      | some a => updMass msms m a) := by
+  induction rows generalizing tbl with
+  | nil => simp
+  | cons a rs ih =>
+    rw [List.foldl_cons, ih, applyAdd, List.map_map]
+    apply List.map_congr_left
+    intro m _
+    simp only [Function.comp, List.reverse_cons, List.find?_append]
+    by_cases hm : m.id = a.index
+    · simp only [hm, if_true]
+      cases hf : List.find? (fun x => decide (x.index = a.index)) rs.reverse with
+      | none => simp [updMass]; exact hm.symm
+      | some b =>
+        simp only [Option.some_or, updMass]
+        cases msms <;> simp <;> exact hm.symm
+    · simp only [hm, if_false]
+      have : (fun x : XAdd => decide (x.index = m.id)) a = false := by
+        simp; exact fun e => hm e.symm
+      cases hf : List.find? (fun x => decide (x.index = m.id)) rs.reverse with
+      | none => simp [this]
+      | some b => simp
 
 end Pew.Agilent
